@@ -20,7 +20,8 @@ theorem constant_fullJac_eq_vjp (E : Engine α) (hE : E.WF) (outs ins : List Key
     (hw : w.length = (outs.map E.numel).sum) :
     combine ((ins.map E.numel).sum) (fullJac E outs ins) w =
       (ins.map fun i => autogradDeposit E outs w i).flatten := by
-  sorry
+  have _ := hw
+  rw [combine_fullJac E hE, List.flatMap_def]
 
 /-- `backward(tensors, Constant(w))` leaves in every `.grad` exactly what
     `torch.autograd.backward(tensors, grad_tensors = w split per tensor)` leaves -/
@@ -31,7 +32,14 @@ theorem backward_constant_eq_autograd (E : Engine α) (tensors inputs : List Key
     (backward E tensors inputs (constAgg w) chunk retain h).err = none ∧
     ∀ k, (backward E tensors inputs (constAgg w) chunk retain h).grads k =
       if k ∈ inputs then accum (h k) (autogradDeposit E tensors w k) else h k := by
-  sorry
+  have hA := constAgg_fullJac E hv.wf tensors inputs w hv.rows_pos hw
+  have hs := backward_eq_spec E tensors inputs (constAgg w) chunk retain h hv hne _ hA
+    (deposits_length E hv.wf tensors inputs w)
+  refine ⟨hs.1, fun k => ?_⟩
+  rw [hs.2 k]
+  by_cases hk : k ∈ inputs
+  · rw [if_pos hk, if_pos hk, sliceOf_deposits E hv.wf tensors inputs w k hk]
+  · rw [if_neg hk, if_neg hk]
 
 /-- `Sum()` is `Constant(1,…,1)`: the gradient of the sum of all output scalars -/
 theorem backward_sum_eq_autograd (E : Engine α) (tensors inputs : List Key)
@@ -42,7 +50,14 @@ theorem backward_sum_eq_autograd (E : Engine α) (tensors inputs : List Key)
       if k ∈ inputs then
         accum (h k) (autogradDeposit E tensors (onesV ((tensors.map E.numel).sum)) k)
       else h k := by
-  sorry
+  have hA := sumAgg_fullJac E hv.wf tensors inputs hv.rows_pos
+  have hs := backward_eq_spec E tensors inputs sumAgg chunk retain h hv hne _ hA
+    (deposits_length E hv.wf tensors inputs _)
+  refine ⟨hs.1, fun k => ?_⟩
+  rw [hs.2 k]
+  by_cases hk : k ∈ inputs
+  · rw [if_pos hk, if_pos hk, sliceOf_deposits E hv.wf tensors inputs _ k hk]
+  · rw [if_neg hk, if_neg hk]
 
 /-- a row-count mismatch between `Constant`'s weights and the Jacobian is rejected, nothing changes -/
 theorem backward_constant_wrong_rows (E : Engine α) (tensors inputs : List Key) (w : Vec α)
@@ -51,6 +66,7 @@ theorem backward_constant_wrong_rows (E : Engine α) (tensors inputs : List Key)
     (hw : w.length ≠ (tensors.map E.numel).sum) :
     (backward E tensors inputs (constAgg w) chunk retain h).err = some Err.value ∧
     (backward E tensors inputs (constAgg w) chunk retain h).grads = h := by
-  sorry
+  exact backward_aggregator_error E tensors inputs (constAgg w) chunk retain h hv hne Err.value
+    (constAgg_fullJac_wrong E tensors inputs w hw)
 
 end Tjd.Props.C05
